@@ -4,7 +4,7 @@ use core::{cmp, fmt};
 use super::{Error, Result};
 use crate::phy::ChecksumCapabilities;
 use crate::wire::ip::checksum;
-use crate::wire::{Ipv4Packet, Ipv4Repr};
+use crate::wire::{IPV4_HEADER_LEN, Ipv4Packet, Ipv4Repr};
 
 enum_with_unknown! {
     /// Internet protocol control message type.
@@ -408,6 +408,37 @@ impl<'a> Repr<'a> {
     {
         packet.check_len()?;
 
+        fn parse_contained_packet(data: &[u8]) -> Result<(&[u8], Ipv4Repr)> {
+            // The offending datagram is normally truncated (RFC 792 only asks for its header
+            // and 64 bits of its payload), so only its header has to be present in full; the
+            // length fields of that header describe the original datagram.
+            if data.len() < IPV4_HEADER_LEN {
+                return Err(Error);
+            }
+            let ip_packet = Ipv4Packet::new_unchecked(data);
+            let header_len = ip_packet.header_len() as usize;
+            let total_len = ip_packet.total_len() as usize;
+            if header_len < IPV4_HEADER_LEN || data.len() < header_len || total_len < header_len {
+                return Err(Error);
+            }
+
+            let payload = &data[header_len..];
+            // RFC 792 requires exactly eight bytes to be returned.
+            // We allow more, since there isn't a reason not to, but require at least eight.
+            if payload.len() < 8 {
+                return Err(Error);
+            }
+
+            let repr = Ipv4Repr {
+                src_addr: ip_packet.src_addr(),
+                dst_addr: ip_packet.dst_addr(),
+                next_header: ip_packet.next_header(),
+                payload_len: total_len - header_len,
+                hop_limit: ip_packet.hop_limit(),
+            };
+            Ok((payload, repr))
+        }
+
         // Valid checksum is expected.
         if checksum_caps.icmpv4.rx() && !packet.verify_checksum() {
             return Err(Error);
@@ -427,47 +458,19 @@ impl<'a> Repr<'a> {
             }),
 
             (Message::DstUnreachable, code) => {
-                let ip_packet = Ipv4Packet::new_checked(packet.data())?;
-
-                let payload = &packet.data()[ip_packet.header_len() as usize..];
-                // RFC 792 requires exactly eight bytes to be returned.
-                // We allow more, since there isn't a reason not to, but require at least eight.
-                if payload.len() < 8 {
-                    return Err(Error);
-                }
-
+                let (payload, header) = parse_contained_packet(packet.data())?;
                 Ok(Repr::DstUnreachable {
                     reason: DstUnreachable::from(code),
-                    header: Ipv4Repr {
-                        src_addr: ip_packet.src_addr(),
-                        dst_addr: ip_packet.dst_addr(),
-                        next_header: ip_packet.next_header(),
-                        payload_len: payload.len(),
-                        hop_limit: ip_packet.hop_limit(),
-                    },
+                    header,
                     data: payload,
                 })
             }
 
             (Message::TimeExceeded, code) => {
-                let ip_packet = Ipv4Packet::new_checked(packet.data())?;
-
-                let payload = &packet.data()[ip_packet.header_len() as usize..];
-                // RFC 792 requires exactly eight bytes to be returned.
-                // We allow more, since there isn't a reason not to, but require at least eight.
-                if payload.len() < 8 {
-                    return Err(Error);
-                }
-
+                let (payload, header) = parse_contained_packet(packet.data())?;
                 Ok(Repr::TimeExceeded {
                     reason: TimeExceeded::from(code),
-                    header: Ipv4Repr {
-                        src_addr: ip_packet.src_addr(),
-                        dst_addr: ip_packet.dst_addr(),
-                        next_header: ip_packet.next_header(),
-                        payload_len: payload.len(),
-                        hop_limit: ip_packet.hop_limit(),
-                    },
+                    header,
                     data: payload,
                 })
             }
